@@ -89,6 +89,10 @@ func (p *Proposal) ValidateBasic() error {
 	if !p.POLBlockID.IsComplete() {
 		return fmt.Errorf("expected a complete, non-empty BlockID, got: %v", p.POLBlockID)
 	}
+	// The part count sizes allocations (peer state bit array, part set) before any part is seen.
+	if p.POLBlockID.PartsHeader.Total > MaxBlockPartsCount {
+		return fmt.Errorf("too many block parts: %d, max: %d", p.POLBlockID.PartsHeader.Total, MaxBlockPartsCount)
+	}
 
 	// NOTE: Timestamp validation is subtle and handled elsewhere.
 
